@@ -94,6 +94,9 @@ def run(ctx):
         cov["variant_detected"]["F14-NEXTRANGE repaired (_iterator_advance_range guards hr[idx])"] = nrv == "fixed"
         ctx.log("hostlist_next_range behaves as the `%s` variant: %s" % (nrv, "every list is iterated to its NULL"
                 if nrv == "fixed" else "the final call is not made when the record array is full"))
+        rmv = pr.probe_rangemove()
+        cov["variant_detected"]["F14-RANGEMOVE repaired (shift_range/pop_range count the records they moved)"] = rmv == "fixed"
+        ctx.log("hostlist_shift_range / hostlist_pop_range keep their books as the `%s` variant" % rmv)
         gen = Gen(rng, cap=900 if ctx.quick() else 2000)
         cases = []
         if replay_case is not None:
@@ -103,6 +106,13 @@ def run(ctx):
             for s in FIXED + load_corpus():
                 cases.append({"origin": "corpus", "ops": ["create " + hx(s)], "desc": s[:200].decode("latin1")})
             cases.append({"origin": "corpus", "ops": ["create " + hx(b"foo[1-2]-[0-1]")], "desc": "foo[1-2]-[0-1]"})
+            # joinable neighbours left UNJOINED by a delete through the public API (F14-RANGEMOVE: hostlist_shift_range /
+            # hostlist_pop_range keep their books with the record count of the temporary list the group was joined in)
+            for expr, gone in ((b"foo[1-2],x,foo[3-4],y", [b"x"]), (b"y,foo[1-2],x,foo[3-4]", [b"x"]),
+                               (b"a[1-2],p,a[3-4],q,a[5-6],b,c[1-3]", [b"p", b"q"]), (b"n[01-02],z,n[03-04]", [b"z"]),
+                               (b"k[1-3],k5,k[6-7]", [b"k5"])):
+                cases.append({"origin": "corpus", "ops": ["create " + hx(expr)] + ["delete_host " + hx(g) for g in gone],
+                              "desc": "%s minus %s" % (expr.decode(), b",".join(gone).decode())})
             # ONE bracket group whose text has 1022..1025 bytes: the fixed buffers of hostlist_shift_range (1024) and
             # hostlist_pop_range / hostlist_next_range (MAXHOSTRANGELEN) at their boundary
             # (48 twenty-digit numbers: a long group text with few hosts keeps the expanded text, and its sweep, short)
@@ -280,6 +290,28 @@ def sweep_lists(ctx, pr, cases, exact, cov, dist):
                         bd = dist.setdefault("boundary", {})
                         key = "%s, group text cut at its fixed buffer" % fn
                         bd[key] = bd.get(key, 0) + 1
+        # the same two functions on the records AS THEY ARE (a delete can leave joinable neighbours unjoined): their record
+        # bookkeeping (finding F14-RANGEMOVE) - the list must be taken apart group by group, without a sanitizer report,
+        # and be empty at the NULL
+        for which, fn in (("S", "hostlist_shift_range"), ("P", "hostlist_pop_range")):
+            ir, mr = names["pranges " + which], mnames["pranges " + which]
+            crashed = re.search(r"!crash:(\S+)$", ir)
+            bad = crashed or "!count=" in ir
+            dist["range-move-lists"] = dist.get("range-move-lists", 0) + 1
+            if mr.endswith("!ub"):
+                dist["range-move-joining-group"] = dist.get("range-move-joining-group", 0) + 1
+            if re.sub(r"!crash:\S+$", "!ub", ir) != mr:
+                ctx.disagreement("print model vs hostlist.c (%s until NULL, records as given)" % fn,
+                                 "impl `%s` model `%s`" % (ir[-200:], mr[-200:]), case)
+            if bad:
+                joining = mr.endswith("!ub") or joinable_neighbours(recs)
+                ctx.offender("range-move%s:%s" % (":joined-while-moving" if joining else "", fn),
+                             "%s until NULL on this list: %s%s" %
+                             (fn, "the sanitizer reports " + crashed.group(1) if crashed else
+                              "the list is not empty at the NULL / the pieces are wrong: " + ir[-40:],
+                              " (moving a bracket group into the temporary list joined records; the books are kept with the "
+                              "temporary list's record count)" if joining else ""),
+                             dict(case, function=fn, answer=ir[-300:]))
         if isx:
             dist["exact-mode-lists"] += 1
         if len(recs) >= 2 and (b"[" in texts.get("r", b"") or sum(r.count() for r in recs) >= 3):
@@ -339,6 +371,12 @@ def big_lists(ctx, pr, dist):
             ctx.offender(parseback_signature("r", recs, ans[-1].split(":")[0].split()[0]),
                          "the ranged text `%s` read back by hostlist_create is not the list it was printed from: %s" %
                          (text[:100].decode("latin1"), ans[-1]), dict(case, dump=ans[-3][:300], text=text[:300].decode("latin1")))
+
+
+def joinable_neighbours(recs):
+    """does some record continue its predecessor (same prefix, both numeric, lo = hi + 1)?  hostlist_push_range would have
+    joined them when their widths are compatible"""
+    return any((not a.single) and (not b.single) and a.pre == b.pre and b.lo == a.hi + 1 for a, b in zip(recs, recs[1:]))
 
 
 def crash_class(txt):
